@@ -239,6 +239,7 @@ def run(tier):
             shutil.rmtree(wd, ignore_errors=True)
     # in-process histories must run in this thread (gc / __del__ ordering); kill histories spawn children
     for i in range(len(hist)):
+        common.tick()
         results[i] = one(i)
     for i, (n, segs) in enumerate(hist):
         res = results[i]
